@@ -873,6 +873,14 @@ func (s *session) startReadAndHandle() {
 		}
 		err = s.socket.ReadMessage(ctx.input)
 		if (err != nil && ctx.GetBodyCodec() == codec.NilCodecID) || !s.goonRead() {
+			if ctx.callCmd != nil {
+				// the reply has been bound to its call (which bindReply locked):
+				// complete the call instead of leaving it locked forever.
+				if err != nil && ctx.callCmd.stat.OK() {
+					ctx.callCmd.stat = statBadMessage.Copy(err)
+				}
+				ctx.handleReply()
+			}
 			s.peer.putContext(ctx, false)
 			return
 		}
